@@ -354,7 +354,7 @@ class DataSource(metaclass=ABCMeta):
             # Assume `obj` is an ID string
             obj_id = obj
 
-        if relationship_type:
+        if relationship_type is not None:
             filters.append(Filter('relationship_type', '=', relationship_type))
 
         if source_only and target_only:
